@@ -130,12 +130,18 @@ def mapAll {α β : Type} (f : α → Option β) : List α → Option (List β)
   | a :: as => match f a, mapAll f as with | some b, some bs => some (b :: bs) | _, _ => none
 
 inductive Mac
-  | align1 | zc | zcpod | zcskip | unsized
+  | align1 | zc | zcpod | zcskip | unsized | unsizednp
   deriving DecidableEq, Repr
 
 def macOf : String → Option Mac
   | "align1" => some .align1 | "zc" => some .zc | "zcpod" => some .zcpod
-  | "zcskip" => some .zcskip | "unsized" => some .unsized | _ => none
+  | "zcskip" => some .zcskip | "unsized" => some .unsized | "unsizednp" => some .unsizednp
+  | _ => none
+
+/-- `#[unsized_type]`, with or without `skip_phantom_generics` -/
+def Mac.isUnsized : Mac → Bool
+  | .unsized | .unsizednp => true
+  | _ => false
 
 def kindOf : String → Option Kind
   | "struct" => some .struct | "tuple" => some .tuple | "union" => some .union
@@ -157,7 +163,7 @@ def parseItem (toks : List String) : Option Item :=
       | some attrs =>
         match kind, body with
         | .enum, [.list (.atom "variants" :: vs)] =>
-          if mac = .unsized then none else
+          if mac.isUnsized then none else
           match listsOf vs with
           | none => none
           | some vss =>
@@ -166,7 +172,7 @@ def parseItem (toks : List String) : Option Item :=
             | some variants => some ⟨mac, ⟨kind, generic, attrs, [], variants⟩, []⟩
         | .enum, _ => none
         | _, [.list (.atom "fields" :: fs)] =>
-          if mac = .unsized then none else
+          if mac.isUnsized then none else
           match atomsOf fs with
           | none => none
           | some fss =>
@@ -174,7 +180,7 @@ def parseItem (toks : List String) : Option Item :=
             | none => none
             | some fields => some ⟨mac, ⟨kind, generic, attrs, fields, []⟩, []⟩
         | _, [.list (.atom "fields" :: fs), .list (.atom "tail" :: ts)] =>
-          if mac ≠ .unsized || !(kind = .struct || kind = .tuple) then none else
+          if !mac.isUnsized || !(kind = .struct || kind = .tuple) then none else
           match atomsOf fs, atomsOf ts with
           | some fss, some tss =>
             match mapAll (fieldOf generic) fss, mapAll utyOf tss with
@@ -212,7 +218,7 @@ def showBit (b : Bool) : String := if b then "1" else "0"
 def instsFor (mac : Mac) (generic : Bool) : List (String × FTy) :=
   if !generic then [("-", FTy.opaque)]
   else
-    if mac = .unsized then [("u8", Ty.u8), ("bool", Ty.bool)] else [("u8", Ty.u8), ("u16", Ty.u16)]
+    if mac.isUnsized then [("u8", Ty.u8), ("bool", Ty.bool)] else [("u8", Ty.u8), ("u16", Ty.u16)]
 
 def showPad (kind : Kind) (l : Layout) : String :=
   match kind with
@@ -220,7 +226,7 @@ def showPad (kind : Kind) (l : Layout) : String :=
   | _ => "-"
 
 /-- `a1=.. align=.. size=.. pad=..[ bits=..]` for the type `d'` instantiated at `x`. -/
-def instLine (d' : Decl) (x : FTy) (withBits : Bool) : String :=
+def instLine (d' : Decl) (x : FTy) (withBits : Bool) (checkFields : Option (List FTy) := none) : String :=
   match rustcLayout (d'.inst x) with
   | none => "nolayout"
   | some l =>
@@ -232,7 +238,7 @@ def instLine (d' : Decl) (x : FTy) (withBits : Bool) : String :=
         let ok := fun (p : List Nat) =>
           match c.kind with
           | .enum => enumValid c.variants p
-          | _ => structValid rr.pack c.fields p
+          | _ => structValid rr.pack (checkFields.getD c.fields) p
         " bits=" ++ String.join (ps.map (fun p => showBit (ok p)))
       else ""
     s!"a1={showBit (align1Holds d' x)} align={l.align} size={l.size} pad={showPad c.kind l}{bits}"
@@ -247,7 +253,8 @@ def acceptItem (it : Item) : Bool :=
   match it.mac with
   | .align1 => acceptAlign1 it.decl
   | .zc | .zcpod | .zcskip => acceptZeroCopy (zcArgsOf it.mac) it.decl
-  | .unsized => acceptUnsized it.decl it.tail ((instsFor it.mac it.decl.generic).map (·.2))
+  | .unsized | .unsizednp =>
+    acceptUnsized (it.mac == .unsizednp) it.decl it.tail ((instsFor it.mac it.decl.generic).map (·.2))
 
 /-- The type the probe measures: the declaration itself, the item the zero-copy derives see, or
 the generated sized part (`none`: an unsized struct without sized fields). -/
@@ -255,14 +262,19 @@ def probedDecl (it : Item) : Option Decl :=
   match it.mac with
   | .align1 => some it.decl
   | .zc | .zcpod | .zcskip => zeroCopyItem (zcArgsOf it.mac) it.decl
-  | .unsized => if it.decl.fields.isEmpty then none else some (sizedPartDecl it.decl)
+  | .unsized | .unsizednp =>
+    if it.decl.fields.isEmpty then none else some (sizedPartDecl (it.mac == .unsizednp) it.decl)
 
 def answerItem (it : Item) : String :=
   if acceptItem it then
     let insts := instsFor it.mac it.decl.generic
     match probedDecl it with
     | some d' =>
-      "accept " ++ " ".intercalate (insts.map (fun (lbl, x) => s!"{lbl}[{instLine d' x (it.mac != .align1)}]"))
+      -- the sized part is checked by the generated `is_valid_bit_pattern` over `sizedCheckFields`
+      let chk := fun (x : FTy) =>
+        if it.mac.isUnsized then some (sizedCheckFields (it.mac == .unsizednp) it.decl x) else none
+      "accept " ++ " ".intercalate
+        (insts.map (fun (lbl, x) => s!"{lbl}[{instLine d' x (it.mac != .align1) (chk x)}]"))
     | none => "accept " ++ " ".intercalate (insts.map (fun (lbl, _) => s!"{lbl}[nosized]"))
   else "reject"
 
@@ -312,6 +324,8 @@ def documentedForms : List (Item × Bool) :=
     (⟨.unsized, ⟨.struct, false, [], cf [Ty.u64], []⟩, [⟨true⟩]⟩, true),
     -- `MyAccount { sized_field: u64, another_sized_field: bool, #[unsized_start] bytes: List<u8>, map: Map<..> }`
     (⟨.unsized, ⟨.struct, false, [], cf [Ty.u64, Ty.bool], []⟩, [⟨true⟩, ⟨true⟩]⟩, true),
+    -- `#[unsized_type(skip_idl, skip_phantom_generics)] struct WithSizedGenerics<A, B> { sized1: A, sized2: B, sized3: u8, .. }`
+    (⟨.unsizednp, ⟨.struct, true, [], [.param, .param, .conc Ty.u8], []⟩, [⟨true⟩]⟩, true),
     -- doctest "ZST at end": `{ field1: u8, #[unsized_start] remaining: RemainingBytes }`
     (⟨.unsized, ⟨.struct, false, [], cf [Ty.u8], []⟩, [⟨false⟩]⟩, true),
     -- doctest "ZST on sized" (compile_fail): `{ field1: (), #[unsized_start] list: List<u8> }`
